@@ -2,6 +2,7 @@
 import json
 import os
 import tempfile
+from . import core
 
 TOK = [{"A": "Server", "B": "Client", "o": "optional", "h": "HighAvailability"},
        {"A": "a", "B": "B9", "o": "0x", "h": "Z"},
@@ -12,7 +13,10 @@ SCAL = [{"relname": "Fedora", "relshort": "F", "relver": "22", "bpname": "Red Ha
         {"relname": "My Prodüct  (beta)", "relshort": "my-prod", "relver": "rawhide", "bpname": "b", "bpshort": "b-1", "bpver": "10.0.3",
          "lpname": "L P", "lpshort": "lp", "lpver": "tech-preview", "date": "19991231"},
         {"relname": "R", "relshort": "R9", "relver": "7.1", "bpname": "Base", "bpshort": "Base", "bpver": "snapshot",
-         "lpname": "x", "lpshort": "X", "lpver": "1", "date": "20380119"}]
+         "lpname": "x", "lpshort": "X", "lpver": "1", "date": "20380119"},
+        # a version that looks like a date (snapshot streams): the compose ID then holds two 8-digit fields
+        {"relname": "Snapshots", "relshort": "Snap", "relver": "20240101", "bpname": "Base OS", "bpshort": "BaseOS", "bpver": "20231231",
+         "lpname": "Layer", "lpshort": "Layer", "lpver": "20240101.1", "date": "20240315"}]
 RESPIN = {"r0": 0, "r7": 7, "rbig": 10 ** 7 + 3}
 # the 14 documented path categories (doc/composeinfo-1.1.rst) - NOT read from the working tree, so that a category
 # dropped symmetrically from reader and writer is seen
@@ -131,6 +135,13 @@ def build(obj, conc):
         ci.compose.label = "%s-%s" % (sec["label"], conc.labelver)
     ci.compose.final = sec["final"]
     ci.compose.id = ci.create_compose_id()
+    idform = sec.get("idform", "derived")
+    if idform == "othertype":
+        # the ID is free-form: its suffix spells another type and respin than the fields carry
+        ci.compose.id = "%s-%s-%s%s.%d" % (s["relshort"], s["relver"], s["date"], "" if sec["ctype"] == "nightly" else ".n",
+                                           RESPIN[sec["respin"]] + 1)
+    elif idform == "nodash":
+        ci.compose.id = "%s%s_%s.%d" % (s["relshort"], s["relver"], s["date"], RESPIN[sec["respin"]])
     objs = {}
     for nd in sorted(obj["nodes"], key=lambda d: (len(d["path"]), d["path"])):
         p = nd["path"]
@@ -291,19 +302,11 @@ def evaluate(case):
     if text2 != text:
         fails.append("%s: writing the re-read object does not reproduce the file byte for byte" % what)
     if case.get("viafile"):
-        d = tempfile.mkdtemp(prefix="verif-c01-")
-        try:
-            p = os.path.join(d, "composeinfo.json")
-            ci.dump(p)
-            if open(p).read() != text:
-                fails.append("%s: dump(path) differs from dumps()" % what)
+        def reload(p):
             c3 = ComposeInfo()
             c3.load(p)
-            if c3.dumps() != text:
-                fails.append("%s: load(path) + dumps() differs" % what)
-        finally:
-            import shutil
-            shutil.rmtree(d, ignore_errors=True)
+            return c3.dumps()
+        fails += core.file_cycle(ci, text, what, "composeinfo.json", reload=reload)
     if not fails:
         fails += ["%s: %s" % (what, f) for f in mutate_and_redump(obj, conc, ci, c2)]
     return fails[:6]
